@@ -36,6 +36,11 @@ MUTANTS = [
      "mc/MC_QTester.tla", "mc/MC_QTester_quick.cfg", "product measurement whose second factor repeats the first outcome index"),
     ("QObjLife.tla", "    /\\ obj' = [obj EXCEPT ![k].copy = obj[k].main]", "    /\\ obj' = [obj EXCEPT ![k].copy = [obj[k].main EXCEPT !.order = \"eq_ineq\"]]",
      "mc/MC_ObjLife.tla", "mc/MC_ObjLife_quick.cfg", "copy() that resets the projection order"),
+    ("QInterop.tla", "SwapIdx(d, k) == (IdxRow(d, k)[2] - 1) * d + IdxRow(d, k)[1]", "SwapIdx(d, k) == (IdxRow(d, k)[1] - 1) * d + IdxRow(d, k)[2]",
+     "mc/MC_QInterop.tla", "mc/MC_QInterop_quick.cfg", "swap of the two Choi factors that is the identity permutation"),
+    ("QInterop.tla", "    [i \\in 1..Len(label) |-> [shots |-> shots[i], dist |-> Slice(flat, SumTo(label, i - 1), SumTo(label, i))]]",
+     "    [i \\in 1..Len(label) |-> [shots |-> shots[i], dist |-> Slice(flat, SumTo(label, i - 1), SumTo(label, i - 1) + label[1])]]",
+     "mc/MC_QInterop.tla", "mc/MC_QInterop_quick.cfg", "segments of the flat vector all as long as the first one"),
     # QPhysCheck's decision table is definitional (the reading of the property): only the binding can refute it,
     # so it has no spec-level mutant here.
 ]
